@@ -41,6 +41,11 @@ CLAIMS = {
         "note": "Trusts CrossHair/z3 and the references in harness/c06.py. Expression space = the templates, not all formulas; state names <= 4 (quick) / 6 chars; string-form stateIn params only with concrete names (a symbolic str there makes CrossHair's tree explode).",
         "design": "DESIGN.md section 4 C06",
     },
+    "C07": {
+        "text": "Bounded symbolic check (fault twin): a fault machine is run fault-free and with a symbolic fault vector over the call sites of user actions and assign/pure callbacks (k-th call raises iff bit k, weight<=1 quick / 2 thorough, exception class symbolic incl. the library's own error types): the faulty trace equals the twin's minus exactly the remainder of each faulted action-list occurrence, same configurations/status/later events, on_action_error once per fault; a raising plugin hook / subscriber / emit listener at a symbolic call index changes nothing; a symbolically chosen broken declaration (unimplemented action, coroutine action under sync, unregistered service, unresolvable target) leaves the configuration exactly as before the failing send, re-arms every cancelled state, is raised from send() (sync) / survived (async), and the rest of the run equals a twin that skipped the event. Both engines.",
+        "note": "Trusts CrossHair/z3 and the twin comparison in harness/c07.py. One machine FT (+2 variants), 3 fixed event sequences; timers/services are observed at _cancel_state_tasks/_schedule_state_tasks (not started). Faults during start() and BaseException faults are outside.",
+        "design": "DESIGN.md section 4 C07",
+    },
     "C10": {
         "text": "Bounded symbolic check: one event from every stable configuration of a completion machine (3-region parallel state with history child, nested compound with its own onDone, targetless parallel onDone; also a variant with prefix-named regions) and symbolic event sequences from start(): onDone fires exactly when the independently recomputed doneness rises, never while a region is not final, done data = final state's output; top-level final: status done once, on_done once, machine-level output precedence (4 variants incl. falsy), later sends are no-ops, stop() still works. Both engines.",
         "note": "Trusts CrossHair/z3 and done_ref in harness/c10.py. One fixed machine family (DM, DM2, TOP0-3), sequences <= 3 (quick) / 4; release of timers/services/actors by stop() after completion is C14's subject.",
